@@ -55,6 +55,11 @@ CLAIMED = {
    text='Proof. For the traced closed paths triangle, quadrilateral, cubic+line, quadratic+line and cubic+cubic (coordinate-wise symbolic control points): polygons equal the shoelace value; cubic+line equals the closed-form Green value; area(reversed) = -area, area(translated) = area and area(transform(M)) = det(M) * area for every 2x3 affine matrix - all as polynomial identities over any field of characteristic 0; orientation pinned by kernel-evaluated unit squares (+1 counter-clockwise, -1 clockwise). path_encloses_pt is the parity of the reported crossings, is_contained_by is exactly (not crossing) and (start in bbox) and (odd probe crossings); the model is run against the real functions over the full truth table. Sampler: exact rational shoelace for random polygons (incl. self-intersecting), dense-polygon reference for Bezier paths (incl. horizontal chords), circles/ellipses from arcs, reversal/translation/random affine maps, exact even-odd test with the probe in general position, containment on nested/disjoint/crossing squares and a bow-tie.',
    note='Trusted: kernel + standard axioms; translator; numpy.poly1d object algebra. Partial: identities are per traced shape (general n-segment paths sampled); the Green integral is not stated with Mathlib integrals; general orientation (Jordan) not attempted; arc chord approximation sampled; enclosure geometry rests on Path.intersect (C11/C12).',
    ref='7 C14'),
+ 'C15': dict(
+   technique='Lean 4 proof: identities over R on unit_tangent / normal / curvature traced from path.py for Line, QuadraticBezier, CubicBezier (numpy sqrt/abs as Real.sqrt/|.|); sampler for arcs, transformation laws and vanishing derivatives',
+   text='Proof (regular points). For each Bezier kind the traced unit_tangent(t) is derivative(t)/|derivative(t)| componentwise and has modulus 1 whenever the derivative does not vanish; normal(t) is the tangent rotated by -90 degrees; curvature(t) is |x\'y\'\' - y\'x\'\'| / |(x\',y\')|^3 in the traced first and second derivatives (which C03 proves to be the derivatives of point). Sampler: all four kinds incl. circular arcs (1/r, finite differences of point), direction of travel by finite differences, rotation/translation/scaling/reversal laws for tangent and curvature, and Bezier segments whose first/last two control points coincide heading into every quadrant.',
+   note='Trusted: kernel + standard axioms; translator. Known findings reported as KNOWN-FINDING: F18 (sign of the tangent lost in the left half-plane where the derivative vanishes) and F28 (unit_tangent(1) numerically unstable for float coordinates). Arc formulas and transformation laws are sampled, not proved.',
+   ref='7 C15'),
  'C16': dict(
    technique='Lean 4 proof: refinement of the mutable Path (state machine with caches) to the cache-free specification by a representation invariant and induction over the operation history; accuracy-contract theorem for the cubic length cache; models tied by operation-sequence correspondence',
    text='Proof (law-free, so valid verbatim for floats). Model: segment list + _length/_lengths/_length_params/_start/_end caches; mutators __setitem__ (index, slice), __delitem__, insert, and append/extend/pop/reverse derived as collections.abc derives them, start/end setters; queries length (any accuracy), T2t, point, start, end. Theorem history_refines_fresh: from a freshly constructed path, after ANY history of admissible mutations interleaved with queries, every query returns exactly what a newly constructed Path of the current segments returns (invariant + induction over the op list). cubic_cache_accuracy: for any monotone accuracy contract every value returned by CubicBezier.length meets the request for the current control points. Pre-repair setters and hit rule are refuted by kernel-checked witnesses. The models are executed against the real classes on every run (random histories to depth 60 with negative/out-of-range indices and raising ops, exhaustive depth 2/3 over a 17-op alphabet, identity-integrator cache runs); a float sampler compares every public query incl. bbox/d/== with a fresh Path after each operation, with scipy on and off.',
